@@ -511,6 +511,7 @@ ITEMS = [
     Item('CSVFormat.writer', sym_csv_writer, [], F + 'format_csv.py::CSVFormat.__init__'),
     Item('JSONFormat.framing', sym_json_framing, [], F + 'format_json.py::JSONFormat.write_transformed_row'),
     Item('FileDumper.rows_processor', DM.sym_rows_processor, [], DM.D + 'file_dumper.py::FileDumper.rows_processor'),
+    Item('FileDumper.dispatch', DM.sym_file_dumper_dispatch, [], DM.D + 'file_dumper.py::FileDumper.process_datapackage'),
     Item('DumperBase.insert_hash_in_path', DM.sym_insert_hash_in_path, [], DM.D + 'dumper_base.py::DumperBase.insert_hash_in_path'),
     Item('load.process_resources', K16.sym_appenders, [], 'dataflows/processors/load.py::load.process_resources'),
     Item('ZipDumper', DM.sym_zip_dumper, [], DM.D + 'to_zip.py::ZipDumper.write_file_to_output'),
